@@ -27,6 +27,9 @@ PickIg(Lm, Lo) ==
   \E sl \in Slices(Lm, Lo) : \E t \in SeqsUpTo(sl.S, 1, sl.L) :
     \E l \in Comp(Len(t)), cr \in (IF Len(t) >= 3 THEN BOOLEAN ELSE {FALSE}), own \in (IF sl.kind = "DNA" /\ Len(t) <= 3 THEN BOOLEAN ELSE {FALSE}) :
       inp = FileRec("ig", sl.kind, t, l, cr, own, TRUE)
+\* one protein slice only (sensitivity runs)
+PickIgOne == \E t \in SeqsUpTo(AAS[4], 1, 3) : \E l \in Comp(Len(t)), cr \in (IF Len(t) >= 3 THEN BOOLEAN ELSE {FALSE}) :
+               inp = FileRec("ig", "PROTEIN", t, l, cr, FALSE, TRUE)
 TxtNames == {"PEO", "A", "N1"}
 PickTxt(L) == \E t \in SeqsUpTo(TxtNames, 1, L) : \E l \in Comp(Len(t)), nl \in BOOLEAN : inp = FileRec("txt", "NAMES", t, l, FALSE, FALSE, nl)
 PickSeqList(L, C) == \E b \in SeqsUpTo([name : {"PEO", "A"}, cnt : 1..C], 1, L) : inp = [fam |-> "seqlist", blocks |-> b]
@@ -65,6 +68,7 @@ Cands(defs, seq) ==
   (UNION { UNION { { Con(x, y, << <<a, b>> >>) : a \in {0, SizeOf(defs, seq, x) - 1}, b \in {0, SizeOf(defs, seq, y) - 1} }
                    : y \in {z \in 0..(m - 1) : z > x} } : x \in 0..(m - 1) })
   \cup { Con(x, x, << <<0, SizeOf(defs, seq, x) - 1>> >>) : x \in {z \in 0..(m - 1) : SizeOf(defs, seq, z) >= 3} }
+CKey(x) == ((x.i * 3 + x.j) * 16 + x.pairs[1][1]) * 16 + x.pairs[1][2]
 EndOpts(m) == {<<>>, <<End(0, "END"), End(m - 1, "CAP")>>, <<End(0, "END"), End(0, "CAP")>>} \cup {<<End(x, "END")>> : x \in 0..(m - 1)}
 LabOpts(m) == {<<>>, <<Lab(0, "chiral", "R")>>, <<Lab(0, "chiral", "R"), Lab(0, "chiral", "S")>>, <<Lab(m - 1, "chiral", "R"), Lab(0, "tag", "T")>>}
 PickGen3For(defs) ==
@@ -72,7 +76,7 @@ PickGen3For(defs) ==
     LET cs == Cands(defs, sq) m == Len(sq) IN
     \/ \E cn \in {<<>>} \cup {<<x>> : x \in cs}, en \in EndOpts(m), lb \in LabOpts(m) : inp = GenRec(defs, sq, cn, en, lb)
     \/ \E x \in cs, y \in cs :
-         /\ x # y
+         /\ CKey(x) < CKey(y)          \* unordered pairs of connect records
          /\ \E el \in { <<(<<>>), (<<>>)>>, <<(<<End(0, "END"), End(m - 1, "CAP")>>), (<<Lab(m - 1, "chiral", "R")>>)>> } :
               inp = GenRec(defs, sq, <<x, y>>, el[1], el[2])
 Sh(l, b) == [lev |-> l, br |-> b]
@@ -107,7 +111,7 @@ MCPick == CASE Fam = "fasta" -> PickFasta(P1, P2)
             [] Fam = "igcp"  -> (\E sl \in {x \in Slices(P1, P2) : x.kind = "PROTEIN"} : \E t \in SeqsUpTo(sl.S, 3, sl.L) :
                                    \E l \in Comp(Len(t)) : inp = FileRec("ig", sl.kind, t, l, TRUE, FALSE, TRUE))
             \* small instances of the sensitivity runs (one per deviation flag)
-            [] Fam = "sensfile" -> (PickFasta(1, 2) \/ PickIg(1, 3) \/ PickTxt(2))
+            [] Fam = "sensfile" -> (PickFasta(1, 2) \/ PickIgOne \/ PickTxt(2))
             [] Fam = "sensgen"  -> (PickGen1 \/ PickGen2s)
             [] Fam = "sensds"   -> PickDsAll(3, 3)
 Init == MCPick /\ InitRest
